@@ -136,6 +136,7 @@ def run_instances(module, instances, total_budget_s, stop_on_violation=True, log
         pending.append((i.name, [([], [])], 0))
     pool = ctx.Pool(NPROC, maxtasksperchild=40)
     inflight = []
+    pending_at_stop = []
     stop = False
     try:
         while pending or inflight:
@@ -161,6 +162,7 @@ def run_instances(module, instances, total_budget_s, stop_on_violation=True, log
                 st.outstanding += 1
                 inflight.append((name, gen, pool.apply_async(_work, (task,))))
             if stop:
+                pending_at_stop.extend(pending)
                 pending = []
             # collect
             still = []
@@ -218,6 +220,8 @@ def run_instances(module, instances, total_budget_s, stop_on_violation=True, log
     for st in states.values():
         if st.finished is None:
             st.finished = time.time()
+        if stop and st.status == "exhausted" and (st.started is None or st.outstanding or any(p_[0] == st.inst.name for p_ in pending_at_stop)):
+            st.status = "stopped"
         if st.status == "exhausted" and st.n_inconclusive:
             st.status = "inconclusive"
         if st.status == "exhausted" and st.dropped:
